@@ -161,15 +161,128 @@ class StreamBed(object):
         self.clock = FakeClock()
         self.saved_time = shttp.time
         shttp.time = self.clock
+        # http_channel.creation_time / last_used / kill_zombies read the clock of medusa.http_server
+        from supervisor.medusa import http_server as mhs
+        self.mhs = mhs
+        self.saved_time_mhs = mhs.time
+        mhs.time = self.clock
         self.tb = testbed_cls(workdir, None, None, tag='t', via_parser=False)
         self.workdir = workdir
         self.which = [i for i, a in enumerate(self.tb.addrs) if a[0] == socket.AF_UNIX][0]
 
     def close(self):
         self.shttp.time = self.saved_time
+        self.mhs.time = self.saved_time_mhs
         self.tb.close()
 
-    def stream(self, url, logpath, initial, steps, version='1.1', inet=False):
+    def _connect(self, inet=False):
+        fam, addr = self.tb.addrs[(1 - self.which) if inet else self.which]
+        c = socket.socket(fam, socket.SOCK_STREAM)
+        c.connect(addr)
+        c.setblocking(False)
+        self.tb.poll(2)
+        return c
+
+    def _drain(self, c):
+        """(bytes available now, peer closed?)"""
+        out = b''
+        for _ in range(50):
+            self.tb.poll(1)
+            try:
+                d = c.recv(1 << 16)
+                if d == b'':
+                    return out, True
+                out += d
+            except (BlockingIOError, InterruptedError):
+                break
+            except (ConnectionResetError, BrokenPipeError):
+                return out, True
+        return out, False
+
+    def zombie_scenario(self, step_seconds, nsteps, idle_seconds_before_maintenance=0):
+        """An actively streaming tail (A), an idle tail whose log never grows (D), a
+        connection that never sent anything (B) and a keep-alive connection that
+        was answered once (C) live through `nsteps` steps of `step_seconds` on the
+        fake clock; A's log is appended and delivered at every step.  Then the
+        REAL maintenance runs: connections are accepted through the real accept
+        path until a channel number is a multiple of maintenance_interval, which
+        makes http_channel.__init__ call maintenance() -> kill_zombies().
+        Returns a dict describing what each connection saw."""
+        mainlog = os.path.join(self.workdir, 'main.log')
+        plog = os.path.join(self.workdir, 'p.log')
+        for pth in (mainlog, plog):
+            with open(pth, 'wb') as f:
+                f.write(b'start\n')
+        chan_cls = self.shttp.deferring_http_channel
+        timeline = []
+        A = self._connect()
+        A.send(b'GET /mainlogtail HTTP/1.1\r\nConnection: keep-alive\r\n\r\n')
+        D = self._connect()
+        D.send(b'GET /logtail/g:p HTTP/1.1\r\n\r\n')
+        B = self._connect()
+        C = self._connect()
+        C.send(b'GET /stylesheets/supervisor.css HTTP/1.1\r\n\r\n')
+        self.clock.advance(0.25)
+        got = {'A': b'', 'B': b'', 'C': b'', 'D': b''}
+        closed = {'A': False, 'B': False, 'C': False, 'D': False}
+        conns = {'A': A, 'B': B, 'C': C, 'D': D}
+
+        def pump():
+            for _ in range(6):
+                self.tb.poll(1)
+            for k, c in conns.items():
+                if not closed[k]:
+                    d, cl = self._drain(c)
+                    got[k] += d
+                    closed[k] = cl
+        pump()
+        appended = b''
+        for i in range(nsteps):
+            self.clock.advance(step_seconds)
+            piece = ('tick %d\n' % i).encode()
+            with open(mainlog, 'ab') as f:
+                f.write(piece)
+            appended += piece
+            pump()
+            timeline.append(('advance+append', step_seconds, len(piece)))
+        if idle_seconds_before_maintenance:
+            self.clock.advance(idle_seconds_before_maintenance)
+            timeline.append(('advance', idle_seconds_before_maintenance, 0))
+        before = [(ch.last_used, ch.creation_time, id(ch)) for ch in list(self.tb.asyncore.socket_map.values())
+                  if ch.__class__ is chan_cls]
+        now = int(self.clock.time())
+        # the real maintenance, through the real accept path
+        counter = self.mhs.http_channel.channel_counter
+        interval = chan_cls.maintenance_interval
+        accepted = 0
+        for _ in range(interval + 2):
+            number = counter.as_long()
+            x = self._connect()
+            accepted += 1
+            x.close()
+            self.tb.poll(2)
+            if number % interval == 0:
+                break
+        timeline.append(('maintenance', accepted, interval))
+        alive_ids = set(id(ch) for ch in self.tb.asyncore.socket_map.values())
+        survivors = [(lu, ct, cid in alive_ids) for (lu, ct, cid) in before]
+        pump()
+        # does A still stream?
+        self.clock.advance(0.25)
+        piece = b'after maintenance\n'
+        with open(mainlog, 'ab') as f:
+            f.write(piece)
+        appended += piece
+        pump()
+        self.clock.advance(0.25)
+        pump()
+        for c in conns.values():
+            c.close()
+        self.tb.poll(3)
+        return {'got': got, 'closed': closed, 'appended': appended, 'timeline': timeline, 'now': now,
+                'timeout': chan_cls.zombie_timeout, 'channels': survivors, 'initial': b'start\n'}
+
+    def stream(self, url, logpath, initial, steps, version='1.1', inet=False, headers=()):
         """Returns (response head bytes, [bytes that arrived in each burst], states)
         where burst 0 is what follows the head right after the request."""
         for f in os.listdir(os.path.dirname(logpath)):
@@ -181,7 +294,7 @@ class StreamBed(object):
         c = socket.socket(fam, socket.SOCK_STREAM)
         c.connect(addr)
         c.setblocking(False)
-        c.send(('GET %s HTTP/%s\r\n\r\n' % (url, version)).encode())
+        c.send(('GET %s HTTP/%s\r\n%s\r\n' % (url, version, ''.join(h + '\r\n' for h in headers))).encode())
         states = [files.state()]
         bursts = []
         try:
